@@ -39,6 +39,9 @@ class ExonCorrector:
             corrected_exons += [(new_introns[-1][1] + 1, read_region[1])]
         else:
             corrected_exons = [(read_region[0], read_region[1])]
+        if any(e[0] > e[1] for e in corrected_exons):
+            # a splice site was moved beyond the end of a tiny terminal exon: the correction is not applicable
+            return alignment_info.read_exons
         return corrected_exons
 
     def correct_fuzzy_junctions(self, alignment_info, read_assignment):
